@@ -1,3 +1,54 @@
-From Sonic Require Import Base.Prelude Model.WsStream.
-Theorem C16_placeholder : True. Proof. exact I. Qed.
-Print Assumptions C16_placeholder.
+(* C16 -- every frame the WebSocket client writes is well-formed and correctly masked. *)
+From Sonic Require Import Base.Prelude Gen.Consts Model.WsFrame Spec.FrameParser Model.WsStream Model.Transport
+  Proofs.WsCodecProofs Proofs.WsStreamProofs.
+Local Open Scope Z_scope.
+
+(* Every frame queued by the client (application messages of every size, caller-built frames with or without payload,
+   automatic Pong and Close - all go through queue_frame), followed by any bytes, parses as exactly one frame: mask bit
+   set, 4-byte key present, un-masking with it gives the submitted bytes, shortest length encoding, FIN/opcode as
+   submitted, and it occupies exactly header + declared payload bytes (nothing trailing). *)
+Theorem C16_queued_frame_wellformed : forall fin op p key rest,
+  entry_ok (fin, op, p, key) ->
+  let F := enc (fin, op, p, key) in
+  parse1 (zlen p) (F ++ rest) = PFrame F rest /\
+  sp_masked F = true /\ sp_plen F = zlen p /\ zlen F = sp_total F /\
+  xor_mask (zsub (2 + sp_ext F) (2 + sp_ext F + 4) F) (zdrop (2 + sp_ext F + 4) F) = p /\
+  nth 0 F 0 = (if fin then 128 else 0) + op mod 16 /\
+  (if sp_l7 F =? 127 then 65535 <? sp_plen F else if sp_l7 F =? 126 then 125 <? sp_plen F else true) = true.
+Proof. exact queued_frame_wellformed. Qed.
+Print Assumptions C16_queued_frame_wellformed.
+
+(* Frames reach the wire in submission order, each written completely before the next begins, for every history of
+   writes/reads/closes and every partial-write behaviour of a healthy transport (partial accepts are looped over). *)
+Theorem C16_wire_in_submission_order : forall ops s, Forall healthy_op ops -> wire_inv s -> wire_inv (wsrun s ops).
+Proof. exact wire_is_log_prefix. Qed.
+Print Assumptions C16_wire_in_submission_order.
+
+(* After any flush on a healthy transport everything queued is on the wire and nothing is left in the buffer. *)
+Theorem C16_flush_writes_everything : forall async s s' e,
+  flush_gen async s = (s', e) -> wire_inv s ->
+  wire_inv s' /\ e = eNone /\ w_pending s' = [] /\ w_state s' = w_state s /\ w_log s' = w_log s /\
+  tr_wire (w_tr s') = concat (map wire_bytes (map enc (w_log s))) /\ w_codec s' = w_codec s /\ tr_in (w_tr s') = tr_in (w_tr s) /\
+  w_rpend s' = w_rpend s /\ w_max s' = w_max s.
+Proof. exact flush_gen_wire. Qed.
+Print Assumptions C16_flush_writes_everything.
+
+(* A message above the configured maximum is refused without writing or queueing anything. *)
+Theorem C16_too_big_writes_nothing : forall s async mt payload,
+  zlen payload > w_max s -> wsstep s (WWrite async mt payload) = (s, [EWrite eMessageTooBig]).
+Proof. exact write_too_big_refused. Qed.
+Print Assumptions C16_too_big_writes_nothing.
+
+Theorem C16_unmask_is_involution : forall key b, xor_mask key (xor_mask key b) = b.
+Proof. exact xor_mask_invol. Qed.
+Print Assumptions C16_unmask_is_involution.
+
+(* Non-vacuity: frames of several length classes, a payload-less caller-built ping, reuse after longer and shorter. *)
+Definition demo_ops : list wsop :=
+  [WWrite false 2 (repeat 7 126); WWriteFrame false true 9 None; WWrite true 1 [1;2]; WWriteFrame true true 10 (Some [3])].
+Definition demo_final : ws := wsrun (ws_init 70000 [[1;2;3;4]; [5;6;7;8]; [9;10;11;12]; [13;14;15;16]]) demo_ops.
+Example C16_demo :
+  length (tr_wire (w_tr demo_final)) = ((2 + 2 + 4 + 126) + (2 + 4) + (2 + 4 + 2) + (2 + 4 + 1))%nat /\
+  w_pending demo_final = [] /\
+  map (fun e : entry => let '(_, _, p, key) := e in (length p, length key)) (w_log demo_final) = [(126, 4); (0, 4); (2, 4); (1, 4)]%nat.
+Proof. vm_compute. repeat split. Qed.
